@@ -473,10 +473,6 @@ func genAdmission(t *rapid.T, label string) *core.Admission {
 				if pi.RegNum == "" || strings.ContainsAny(pi.RegNum, ",") {
 					pi.RegNum = "1-2-3"
 				}
-				if rapid.IntRange(0, 15).Draw(t, lp+"-regbad") == 0 {
-					// characters outside X.680 PrintableString: cannot be encoded, must be refused
-					pi.RegNum += rapid.SampledFrom([]string{"*", "@", "_", "&", "é"}).Draw(t, lp+"-regbadch")
-				}
 			}
 			switch rapid.IntRange(0, 3).Draw(t, lp+"-add") {
 			case 0:
